@@ -993,7 +993,7 @@ class Interp:
                 if t in (decided, "TF"):
                     s2 = self.refine(e.values[i], r.state, fr, not is_and)
                     if s2 is not None:
-                        v = r.value if t == decided else (FALSE if is_and and r.value in (TOP, ("bool",)) else r.value)
+                        v = r.value if t == decided else (FALSE if is_and and r.value in (TOP, ("bool",)) else TRUE if not is_and and r.value == ("bool",) else r.value)
                         results.append(val(v, s2))
                 if t != decided:
                     s2 = self.refine(e.values[i], r.state, fr, is_and)
